@@ -51,3 +51,15 @@ Theorem c01_gssv_backward : forall u, 0 <= u -> u < 1 -> forall n (A : mat) (b X
     <= gamma u (3 * n) * bigsum (fun j => bigsum (fun k => Rabs (L (pr i) k) * Rabs (U k (pc j))) n * Rabs (X j)) n.
 Proof. exact gssv_backward. Qed.
 Print Assumptions c01_gssv_backward.
+
+From SLU Require Import NumTrans.
+
+(* the transposed solve (trans = TRANS, and CONJ on real data): forward substitution with U^T (division by the diagonal),
+   back substitution with the unit upper triangular L^T, any summation order:  |c - B^T x| <= gamma(3n) |U^T||L^T||x| *)
+Theorem c01_solve_backward_trans : forall u, 0 <= u -> u < 1 -> forall n B L U c z x,
+  lu_rel u n B L U -> lsolved_rel u n (fun i k => U k i) c z -> uusolve_rel u n (fun i k => L k i) z x -> INR (3 * n) * u < 1 ->
+  forall i, (i < n)%nat ->
+    Rabs (c i - bigsum (fun j => B j i * x j) n)
+    <= gamma u (3 * n) * bigsum (fun j => bigsum (fun k => Rabs (U k i) * Rabs (L j k)) n * Rabs (x j)) n.
+Proof. exact solve_backward_trans. Qed.
+Print Assumptions c01_solve_backward_trans.
